@@ -4,7 +4,7 @@ CONSTANTS
  MaxTypeBits = 10
  MaxCards = 512
  MaxDkgPlayers = 256
- Fams = {"group"}
- P <- PQuick
+ Fams = {"card", "group"}
+ P <- PThorough
 INVARIANTS Theorems Emit
 CHECK_DEADLOCK FALSE
